@@ -141,4 +141,56 @@ example : let tpl := [Seg.lit [117, 115, 101, 114, 115], Seg.var [105, 100], Seg
   simp at hs
   rcases hs with rfl | rfl <;> decide
 
+/-- the table a client builds from the request's path-bound fields, read by NAME: its order (the order in which the
+fields are declared) does not matter as long as no name occurs twice. -/
+theorem lookup_perm {α β : Type} [BEq α] [LawfulBEq α] {l₁ l₂ : List (α × β)} (hp : l₁.Perm l₂)
+    (hn : l₁.Pairwise fun a b => a.1 ≠ b.1) (n : α) : l₁.lookup n = l₂.lookup n := by
+  induction hp with
+  | nil => rfl
+  | cons x _ ih =>
+    rename_i t₁ t₂
+    have := ih (List.Pairwise.of_cons hn)
+    cases x with
+    | mk k v => simp only [List.lookup_cons]; split <;> simp_all
+  | swap x y l =>
+    cases x with
+    | mk kx vx =>
+      cases y with
+      | mk ky vy =>
+        have hne : ky ≠ kx := by
+          have := (List.pairwise_cons.mp hn).1 (kx, vx) List.mem_cons_self
+          simpa using this
+        have b1 : (ky == kx) = false := by simpa using hne
+        have b2 : (kx == ky) = false := by simpa using (fun e => hne e.symm)
+        simp only [List.lookup_cons]
+        by_cases h1 : n = ky
+        · subst h1; simp [b1]
+        · by_cases h2 : n = kx
+          · subst h2; simp [b2]
+          · have c1 : (n == ky) = false := by simpa using h1
+            have c2 : (n == kx) = false := by simpa using h2
+            simp [c1, c2]
+  | trans h₁ h₂ ih₁ ih₂ =>
+    rw [ih₁ hn]
+    exact ih₂ (h₁.pairwise hn (fun h e => h e.symm))
+
+/-- **the request path does not depend on the order in which the path-bound fields are declared**: the client fills
+each `{variable}` of the template with the value of the field of that NAME; two listings of the same (name, value)
+pairs — the request message's declaration order, the template's order, any other — give the same path. -/
+theorem client_path_ignores_declaration_order (tpl : List Seg) {vals₁ vals₂ : List (Bytes × Bytes)}
+    (hp : vals₁.Perm vals₂) (hn : vals₁.Pairwise fun a b => a.1 ≠ b.1) :
+    renderPath tpl (fun n => (vals₁.lookup n).getD []) = renderPath tpl (fun n => (vals₂.lookup n).getD []) := by
+  have : (fun n => (vals₁.lookup n).getD []) = (fun n => (vals₂.lookup n).getD []) := by
+    funext n; rw [lookup_perm hp hn n]
+  rw [this]
+
+/-- non-vacuity: `/users/{user_id}/posts/{post_id}` with the fields declared post_id first. -/
+example :
+    let tpl := [Seg.lit (bytesOfStr "users".toList), Seg.var (bytesOfStr "user_id".toList), Seg.lit (bytesOfStr "posts".toList), Seg.var (bytesOfStr "post_id".toList)]
+    let u : Bytes × Bytes := (bytesOfStr "user_id".toList, bytesOfStr "alice".toList)
+    let p : Bytes × Bytes := (bytesOfStr "post_id".toList, bytesOfStr "p-42".toList)
+    renderPath tpl (fun n => (([p, u] : List (Bytes × Bytes)).lookup n).getD []) = renderPath tpl (fun n => (([u, p] : List (Bytes × Bytes)).lookup n).getD []) ∧
+    [p, u].Perm [u, p] ∧ ([p, u] : List (Bytes × Bytes)).Pairwise (fun a b => a.1 ≠ b.1) := by
+  refine ⟨by decide, List.Perm.swap _ _ _, by decide⟩
+
 end Sebuf.C01
